@@ -709,6 +709,14 @@ var propC02Sessions = Register(&Prop{ID: "C02", Sub: "sessions", Live: c03Live, 
 
 func TestProp_C02_sessions(t *testing.T) { propC02Sessions.Check(t) }
 
+// C08 inside session transactions: the same machinery decides that calls
+// failing inside a transaction leave no pending event and that a commit
+// publishes exactly the events of the transaction's successful writes (the
+// compared dumps contain the change log).
+var propC08Sessions = Register(&Prop{ID: "C08", Sub: "sessions", Live: c03Live, Run: c03Run_})
+
+func TestProp_C08_sessions(t *testing.T) { propC08Sessions.Check(t) }
+
 var (
 	c03Live = func(t *rapid.T, x *Ctx) (bson.D, error) {
 		r, err := newC03Run(x)
